@@ -182,6 +182,32 @@ func genEcdsa(d *emuCurveDesc, rng *rand.Rand) []*ecdsaCase {
 		}
 		mk(fmt.Sprintf("r=x(R)-with-bit-%d-flipped,s-consistent", bit), Q, e, rp, sp, true)
 	}
+	// the two partial results of the verification coincide: m = r*d (mod n)
+	// gives [m/s]G == [r/s]Q; the signature is genuine (crypto/ecdsa accepts it)
+	for {
+		kk := randNonzero(rng, n)
+		R := c.mul(c.G(), kk)
+		rc := new(big.Int).Mod(R.X, n)
+		mc := new(big.Int).Mul(rc, sk)
+		mc.Mod(mc, n)
+		if rc.Sign() == 0 || mc.Sign() == 0 {
+			continue
+		}
+		_, sc, ok := ecdsaSignRef(c, sk, mc, kk)
+		if !ok {
+			continue
+		}
+		mk("coincide:valid,m=r*d([m/s]G==[r/s]Q)", Q, mc, rc, sc, true)
+		bad := new(big.Int).Set(mc)
+		bad.SetBit(bad, 0, bad.Bit(0)^1)
+		mk("coincide:m=r*d-with-bit-0-flipped(must-reject)", Q, bad, rc, sc, true)
+		badr := new(big.Int).Set(rc)
+		badr.SetBit(badr, 0, badr.Bit(0)^1)
+		if badr.Sign() != 0 {
+			mk("coincide:m=r*d,r-with-bit-0-flipped(must-reject)", Q, mc, badr, sc, true)
+		}
+		break
+	}
 	// public key at infinity with the classic forgery r = x(kG), s = e/k
 	k := randNonzero(rng, n)
 	kG := c.mul(c.G(), k)
